@@ -55,6 +55,12 @@ type KMS struct {
 	// FailEncrypts > 0 makes that many following EncryptKey calls fail (DecryptKey keeps working): the KMS cannot
 	// wrap new system keys for a while.
 	FailEncrypts int
+	// InSecret, when set, tells whether a slice lies inside a secret that is being read right now. A system key handed
+	// to EncryptKey from anywhere else sits in an ordinary heap buffer: the monitor then keeps that very slice with the
+	// other retained buffers, to be checked for zero bytes when the public call returns.
+	InSecret func([]byte) bool
+	// HeapInputs counts EncryptKey inputs that were not inside a secret being read
+	HeapInputs int
 }
 
 // NewKMS wraps inner.
@@ -109,8 +115,13 @@ func (k *KMS) EncryptKey(ctx context.Context, key []byte) ([]byte, error) {
 		c.Err = err.Error()
 	}
 	c.Wrapped = append([]byte(nil), out...)
+	heap := k.InSecret != nil && len(key) > 0 && !k.InSecret(key)
 	k.mu.Lock()
 	k.calls = append(k.calls, c)
+	if heap {
+		k.Retained = append(k.Retained, key)
+		k.HeapInputs++
+	}
 	k.mu.Unlock()
 	return out, err
 }
